@@ -114,14 +114,14 @@ CHECKS = {
 
 # clauses added after the independently seeded round (DESIGN 4c); appended to the claim text
 ADDED = {
-    "C10": " Also: (e) no where(mask, a, f(x)) in the differentiated forward maps hides an operation with a singular derivative behind the mask (nan gradients at the masked point); the ladder evaluator reads abs / real / imag of scalars, so a gradient written with |tanh r| instead of tanh r is decided.",
+    "C10": " Also: (e) no where(mask, a, f(x)) in the differentiated forward maps hides an operation with a singular derivative behind the mask (nan gradients at the masked point); the ladder evaluator reads abs / real / imag of scalars, so a gradient written with |tanh r| instead of tanh r is decided. Also: (f) the hand-written derivative of the Fock-space recurrence of an interferometer (_calculate_subspace_grad) equals the product-rule derivative, in index notation, of the forward recurrence read from the numba loop nest, and its driver starts from the unit matrix, carries the derivative between levels and reads tables / previous level / upstream at the forward pass's offsets.",
     "C02": " Also: (f) axis typing of the detector matrix: a size read from axis k of a matrix parameter bounds only indices that run along axis k of that matrix (number of alternatives of a draw whose probability vector is a column, indices from range / itertools.product into a column, bound tests of direct indices), followed through helper return values - exact and sampled treatment of imperfect detectors agree. Also: (d) no random draw is stored under a data-dependent key and reused for several sample components. Also: (g) the position-eigenfunction weights with which the multi-mode pure-Fock homodyne sampler conditions the next mode carry the normaliser of the Hermite index (H_n(x) / sqrt(2^n n!)); known finding 32 on the current tree.",
     "C05": " Also: (d) mode tuples live in two index spaces (positions among the active modes vs original mode labels); each call from a simulation step into a state method hands the space the parameter is used in there (inferred from its combination with the post-selected modes / its use as an index into the active modes), converting with map_to_original_modes; (e) a positional cursor carried from one loop iteration to the next is advanced on every path through the loop body (no `continue` before its update); (f) only the state's initialiser and _apply_matrix_on_modes assign the effective interferometer (simulation steps never write it directly, because they hold positions among the active modes). Also: (g) in the general Gram-matrix kernel the overlap matrix is paired with the amplitudes as <phi_j|phi_i> for amplitude(i) conj(amplitude(j)): outer(v, conj(v)) goes with conj(G) / G^T, outer(conj(v), v) with G (finding 33).",
     "C03": " Also: (d) every branch state handed on by a step reachable with shots=None is the normalised projection (constructor with a normalization argument or normalize() on the way), which is what makes the simulator's multiplication of child by parent weights the chain rule. Also: (c) in every `shots is None` arm the weights handed on are the iterated probabilities themselves (times the parent branch's weight), not a renormalised or rescaled value.",
     "C04": " Also: the absolute-threshold rule covers the numba hafnian kernels (the guard of an identity-rescaling arm is the accepted idiom); an exact zero test of a sum is applied to summands that cannot cancel. Also: no `<<` is evaluated in fewer bits than the stated multiplicity range needs with a run-time count; an in-place rescaling helper returns on every path the factor it applied on that path; the native kernels branch on computed floating values only through exact tests (no absolute tolerance). Also: (f) a scale factor computed as a norm of the input (sum of absolute values) is never used as a divisor - in the same function, in a callee that receives it, or after being returned - without a dominating zero test (the all-zero matrix is a legal input); (g) an entry of a kernel's input array or of a copy of it is only updated from its old value, never overwritten.",
     "C07": " Also: every moment update of the six Gaussian update functions is executed on every non-raising path (CFG must-pass-through). Also: every closed-form block is free of config.hbar; the S_(c) matrices printed in the class docstrings equal [[P, A], [conj A, conj P]] assembled from the blocks (LaTeX fragment reader); the steps registered for gates keep the requested mode order (no sorted image, no order-insensitive shortcut). Also: (g) ownership of the Gaussian second moments - only the update helpers assign C and G (always both); the registered steps never do and change m only additively; helper methods of a gate class are evaluated in place by the closed-form engine.",
     "C08": " Also: a triangle of a density matrix mirrored by plain transposition is reported; the attenuator's weight equals the channel formula its docstring states (when stated). Also: (b) every update of the mixed-Fock density matrix has a Hermiticity-preserving form (K rho K^dagger with the same K on both sides, an elementwise factor exp(i(g(ket) - g(bra))), an explicit conjugate-transpose mirror fill) and the attenuator's weights are symmetric under ket <-> bra. Also: a second update of the attenuator at the swapped (bra, ket) index must add the complex conjugate of the primary value. Also: (c) the Gaussian channel updates the covariance matrix by a congruence (right factor = transpose of the left factor), as one expression or as a row update followed by a column update.",
-    "C09": " Also: (e) a connector's hand-written polar decomposition has the contract of scipy.linalg.polar (P^2 = M^dagger M, U = M P^-1 on the right; P^2 = M M^dagger, U = P^-1 M on the left), decided in the matrix-word algebra; the result of connector.assign bound to a local that is never read again is reported (lost update under functional connectors). Also: (d) the NumPy/numba and the JAX implementation of the Gaussian density-matrix recurrence have the same normal form (pivot, initial term, loop summands, divisor). Also: (e) polar methods that delegate to a library polar on a transformed matrix return factors whose product is the matrix (word algebra with a Hermitian polar factor); (f) the array handed to connector.assign is consumed - after `B = connector.assign(A, ...)` neither A nor an alias of A is read again on any CFG path (NumPy updates it in place, JAX/TensorFlow do not). Also: (g) the formula used for traced angles in GaussianState.get_phaseshifter_expectation_value has the same kernel as the eager formula: both exponents u^dagger T u are compared through the symbolic inverses of their kernels in an algebra where diagonal matrices commute with each other but not with the covariance, and the diagonal parts are compared as functions of the angle (sympy).",
+    "C09": " Also: (e) a connector's hand-written polar decomposition has the contract of scipy.linalg.polar (P^2 = M^dagger M, U = M P^-1 on the right; P^2 = M M^dagger, U = P^-1 M on the left), decided in the matrix-word algebra; the result of connector.assign bound to a local that is never read again is reported (lost update under functional connectors). Also: (d) the NumPy/numba and the JAX implementation of the Gaussian density-matrix recurrence have the same normal form (pivot, initial term, loop summands, divisor). Also: (e) polar methods that delegate to a library polar on a transformed matrix return factors whose product is the matrix (word algebra with a Hermitian polar factor); (f) the array handed to connector.assign is consumed - after `B = connector.assign(A, ...)` neither A nor an alias of A is read again on any CFG path (NumPy updates it in place, JAX/TensorFlow do not). Also: (g) the formula used for traced angles in GaussianState.get_phaseshifter_expectation_value has the same kernel as the eager formula: both exponents u^dagger T u are compared through the symbolic inverses of their kernels in an algebra where diagonal matrices commute with each other but not with the covariance, and the diagonal parts are compared as functions of the angle (sympy). Also: (h) the numba loop nest (NumPy connector) and the generic einsum implementation (TensorFlow / JAX connectors) of calculate_interferometer_on_fock_space denote the same sum in index notation, with the helper tables named by position and the same level offsets.",
     "C11": " Also: (g) no Python code reads the worker count (numba.get_num_threads, NUMBA_NUM_THREADS, cpu_count); (h) a hand-written cache keys on every attribute of self that the cached method reads and that a method other than __init__ re-assigns or mutates. Also: the seed of every privately constructed generator is traced to a read of the seed_sequence property; no object shared by the shots of a dask region (bound by partial, free variable of the per-shot closure) is written in place by the per-shot callable; the jobs of the native permanent tile the Gray-code range exactly for every job count (S(0)=0, E(K-1)=M-1, S(j+1)=E(j)+1, proved by case split over the comparisons). Also: (h, module-level form) a dict bound at module level and filled under `if key not in CACHE` is keyed on every input (access path rooted at a parameter) the stored value is computed from. Also: the identity of arrays updated through connector.assign is not a cache key; a shared Generator is replaced, never re-seeded in place. Every path of the seed setter that re-creates the numpy generator re-seeds Python's global generator too.",
     "C06": " Also: (d) the accumulators of the vectorised index functions have a literal integer dtype of at least 32 bits, never the dtype of the argument. Also: (e) loop invariant of comb / arr_comb decided with sympy: the accumulator starts at 1 and one iteration maps C(n, i) to C(n, i + 1), so the division inside the loop is exact, intermediates are binomial coefficients and the accumulator itself is returned. The same clause requires the symmetric reduction: the loop runs min(k, n - k) times (scalar re-binding of k, or an elementwise guard on the update), so no intermediate exceeds n times the result (finding 34).",
     "C12": " Also: (f) branches built in a loop do not share one state object (the simulator evolves branch states in place); shallow copies (copy.copy) keep their element aliases, the parts of a memoised object reached through attributes belong to it and attribute stores on them are writes. Also: a shallow copy.copy of a registered instruction is not a copy (the parameter dictionaries stay shared).",
